@@ -30,8 +30,13 @@ Definition establish (fix18 : bool) (c : cfg) (s : server) : run :=
     | AnsRc n => {| result := if N.eqb n 0 then (if handshake c s then Established Tls else Failed) else Failed;
                     cleartext_writes := [StartTlsRequest]; cleartext_bytes_fed_to_ldap_decoder_after_tls := [] |}
     | AnsGarbage => {| result := Failed; cleartext_writes := [StartTlsRequest]; cleartext_bytes_fed_to_ldap_decoder_after_tls := [] |}
-    | AnsClose | AnsOtherIdFirst =>
+    | AnsClose =>
         {| result := if fix18 then Failed else NeverReturns; cleartext_writes := [StartTlsRequest]; cleartext_bytes_fed_to_ldap_decoder_after_tls := [] |}
+    | AnsOtherIdFirst =>
+        (* a message under another id (e.g. an unsolicited notification) first, then the success response: with the repair of F18 the
+           single-op turn keeps going until the StartTLS response itself has been delivered *)
+        {| result := if fix18 then (if handshake c s then Established Tls else Failed) else NeverReturns;
+           cleartext_writes := [StartTlsRequest]; cleartext_bytes_fed_to_ldap_decoder_after_tls := [] |}
     end
   else {| result := Established Clear; cleartext_writes := []; cleartext_bytes_fed_to_ldap_decoder_after_tls := [] |}.
 
